@@ -152,6 +152,36 @@ def ob_update_inrange(b0: int, b1: int, b2: int, b3: int, b4: int, b5: int, b6: 
     return isinstance(r, dict) and 'sub_error' in r and 'attr' in r
 
 
+def ob_nested(b0: int, b1: int, b2: int, b3: int) -> bool:
+    """BGP-LS attribute TLVs that carry sub-TLVs (SRv6 End.X SID 1106, SRv6 Locator 1162): k sibling sub-TLVs, or a
+    chain nested k deep, must cost work linear in the input length (loop fuel = 2 * length + 8), not more."""
+    from yabgp.message.attribute.linkstate.linkstate import LinkState
+    k, form, outer = P['k'], P['form'], P['outer']
+    v = _bytes([b0, b1, b2, b3], 4)
+
+    def tlv(t, body):
+        return struct.pack('!HH', t, len(body)) + body
+    fixed1106 = bytes([0, 5]) + v[0:1] + bytes([0, 0, 0]) + bytes(14) + v[1:3]
+    if form == 'siblings':
+        inner = b''.join(tlv(1106, fixed1106) for _ in range(k))
+    else:
+        inner = b''
+        for _ in range(k):
+            inner = tlv(1106, fixed1106 + inner)
+    if outer == 1106:
+        data = tlv(1106, fixed1106 + inner)
+    else:
+        data = tlv(1162, v[3:4] + bytes([0, 0, 0, 0, 0, 0, 10]) + inner)
+    FUEL.reset(2 * len(data) + 8)
+    try:
+        LinkState.unpack(data, 1)
+    except Exception:
+        cover('raised')
+        return True
+    cover('returned')
+    return True
+
+
 def ob_tlv(b0: int, b1: int, b2: int, b3: int, b4: int, b5: int, b6: int, b7: int) -> bool:
     """one registered link-state TLV of sub-length n inside a link-state attribute; the first
     octets symbolic, the rest of the body from a fixed pattern"""
@@ -219,6 +249,12 @@ def obligations(tier, seed):
                 pre2 = list(struct.pack('!HBB', afi, safi, nh)) + [1] * nh + [0]
                 out.append(ob('C11/leaf/mpreach/afi=%d/safi=%d/nh=%d/n=%d' % (afi, safi, nh, n), 'ob_leaf',
                               {'dec': 'mpreach', 'n': n, 'prefix': pre2}, cap=200 if quick else 800))
+    # sub-TLV carrying TLVs: many siblings / deep chains (work must stay linear)
+    for outer in (1106, 1162):
+        for form in ('siblings', 'chain'):
+            for k in ((6, 14) if quick else (1, 2, 6, 14, 30, 60)):
+                out.append(ob('C11/nested/outer=%d/%s/k=%d' % (outer, form, k), 'ob_nested', {'outer': outer, 'form': form, 'k': k},
+                              cap=200 if quick else 600))
     # Update.parse, both length fields in range
     splits = [(0, 0, 0), (1, 0, 0), (0, 0, 1), (2, 0, 2), (0, 3, 0), (0, 4, 0), (0, 5, 0), (1, 3, 1), (0, 4, 2)]
     if not quick:
